@@ -12,7 +12,7 @@ def analysis_cases(ctx, corpus_exprs):
     rng = ctx.rng
     cases = []
     for s in corpus_exprs:
-        for b in (1, 2, 3, 4, 5, 6, 8, 32):
+        for b in (1, 2, 3, 4, 5, 6, 8, 32, 33, 64):
             cases.append((b, s, 'corpus'))
     # small-scope exhaustive
     ss_ops = 1
@@ -34,7 +34,7 @@ def analysis_cases(ctx, corpus_exprs):
             for t in L.all_trees(2, lv):
                 cases.append((b, L.show(t, 'min'), 'ss2'))
     nrand = 6000 if ctx.quick() else 150000
-    widths = [1, 2, 3, 4, 5, 6, 7, 8, 32]
+    widths = [1, 2, 3, 4, 5, 6, 7, 8, 32, 33, 40, 64]
     for i in range(nrand):
         b = widths[i % len(widths)]
         M = 1 << b
